@@ -471,6 +471,12 @@ def _write_external_data(
     destination_path = (
         os.path.realpath(requested_path) if os.path.islink(requested_path) else requested_path
     )
+    if os.path.basename(destination_path) in ("", os.curdir, os.pardir):
+        # A path that ends in a separator or names a directory: nothing can be written
+        # to it, and the clean-up below could not tell the staged file from its directory
+        raise IsADirectoryError(
+            f"The external data path must name a file, not a directory: '{requested_path}'"
+        )
     # Inspect the input tensors before anything is created on disk: a malformed
     # location (e.g. an embedded null byte) raises here and must not leak the temporary directory.
     overwritten_tensors = [
